@@ -116,6 +116,21 @@ pub fn run(ctx: &Ctx, acc: &mut Acc) {
             }
         }
     }
+    // the hand-written programs of the repository (comments, layout and constructs of real users)
+    for (k, t) in super::corpus::all_sources().iter().enumerate() {
+        if k % ctx.nshards != ctx.shard {
+            continue;
+        }
+        if let Ok(tree) = pipeline::parse(&t.1) {
+            for (w, ind) in [(1usize, 0isize), (20, 2), (80, 4), (200, 8), (40, 1), (60, 3)] {
+                acc.evaluations += 1;
+                if judge(acc, &t.1, &tree, w, ind, &format!("corpus {}", t.0), false) {
+                    acc.count("corpus_texts_judged");
+                    acc.nontrivial(crate::rng::hash_str(&t.1) ^ (w as u64) << 8 ^ ind as u64);
+                }
+            }
+        }
+    }
     while ctx.time_left() && i < max_cases {
         let seed = ctx.case_seed(i);
         i += 1;
